@@ -5,16 +5,29 @@ SPEC = dict(
     gen_areas=["Numeric"],
     corr_targets=["Search/NumericCorr.vo"],
     level_rule=("cases: direct calls of Float64ToInt64/Int64ToFloat64, NewPrefixCodedInt64, PrefixCoded.Int64, "
-                "ValidPrefixCodedTermBytes, splitInt64Range, termRange.Enumerate, incrementBytes, the numeric analyzer's "
-                "tokens, Interleave/Deinterleave and end-to-end NumericRange queries, on boundary sets (sign change, +-0 "
-                "neighbours, subnormals, powers of two +-1, 4-bit and 7-bit boundaries, int64 extremes, +-Inf ends) plus "
+                "ValidPrefixCodedTermBytes, splitInt64Range, termRange.Enumerate, incrementBytes, the numeric / datetime / "
+                "geo-point analyzers' tokens (with multiplicities), Interleave/Deinterleave (random and Morton-hash halves) and "
+                "end-to-end NumericRange and DateRange queries and sorted match-all searches, on boundary sets (sign change, +-0 "
+                "neighbours, subnormals, powers of two +-1, 4-bit and 7-bit boundaries, int64 extremes, +-Inf ends, the two "
+                "instants whose float image is an infinity) plus "
                 "seeded random 64-bit values; a case is non-trivial when the call succeeds on a non-zero input / the "
                 "interval is non-empty / the query matches some but not all documents; distinct = distinct Coq case terms. "
-                "oracle evaluations: order embedding on all boundary pairs x 64 shifts, interval membership of probe values."),
-    trust=["numeric_range_exact is stated over index tokens and split ranges; the dictionary (vellum) lookup "
-           "`Contains` is a function parameter (dict) of the model"],
-    assumptions=["NaN bit patterns are outside the order theorem's reading as numbers (finite values per the property)",
-                 "the segment dictionary answers Contains(term) exactly for the indexed terms (checked end to end only)"],
+                "oracle evaluations: order embedding on all boundary pairs x 64 shifts (and geo hashes x shifts 0,9,..,63), "
+                "interval membership of probe values, interval membership of every document for every range query, "
+                "float order of every sorted result list."),
+    trust=["split_exact / numeric_range_exact / date_range_exact are stated over index tokens and split ranges "
+           "(declarative in_trange matching); the dictionary (vellum) lookup `Contains` is a function parameter (dict) "
+           "of the model and of enumerate_spec",
+           "no library axiom: every theorem of Props/C10.v prints `Closed under the global context` "
+           "(stdlib ZArith/Lia/List only; no Flocq / FloatAxioms import)",
+           "float_lt is the sign/magnitude order on the 64-bit pattern (exponent and mantissa fields compared as one "
+           "63-bit number); its agreement with IEEE-754 `<` on finite non-zero values is the standard layout fact, "
+           "checked on the implementation by the engine's all-pairs order oracle (Go `<` on float64), not proved in Coq"],
+    assumptions=["NaN bit patterns are outside the order theorem's reading as numbers (finite values per the property); "
+                 "the theorems hold for them in the sign/magnitude order",
+                 "the segment dictionary answers Contains(term) exactly for the indexed terms (checked end to end only)",
+                 "Go passes float64 NaN payloads through calls unchanged on amd64 (DateRangeQuery sends int64 nanoseconds "
+                 "through float64); checked by the CF2I / CDateQ cases"],
     search_seeds=2,
     engine_timeout=900,
 )
@@ -25,8 +38,9 @@ META = dict(
           "implementation's observed outputs for boundary and random inputs, and by regenerated constants (T-gen)."),
     design_ref="DESIGN.md Part 2 C10",
     note=("Trusted: Coq kernel, goextract, harness. The vellum dictionary is a parameter of the model. Known finding D8 "
-          "(Enumerate blow-up on ranges crossing a 7-bit digit boundary) is listed in KNOWN_FINDINGS.json."),
-    technique="Coq proof (lia, bit lemmas) + vm_compute correspondence on observed outputs",
+          "(Enumerate blow-up on ranges crossing a 7-bit digit boundary) is listed in KNOWN_FINDINGS.json; two date-range "
+          "findings (end points aliasing +-Inf; extreme instants with exclusive/open ends) in findings/C10.json."),
+    technique="Coq proof (lia, bit lemmas, block-number loop invariant for splitInt64Range, verified symbolic bit evaluator for Interleave) + vm_compute correspondence on observed outputs",
 )
 
-ENGINE_TEXT = {"numeric": "direct calls + end-to-end range queries; cases evaluated by Search/NumericCorr.v"}
+ENGINE_TEXT = {"numeric": "direct calls + end-to-end numeric/date range queries and sorted searches; cases evaluated by Search/NumericCorr.v"}
